@@ -596,6 +596,202 @@ def k6_part(ctx):
     ctx.count(n=len(cases))
 
 
+def mutants(doc, r):
+    """a few structurally mutated copies of a JSON document (mostly invalid instances)"""
+    out = []
+
+    def paths(x, p=()):
+        yield p
+        if isinstance(x, list):
+            for i, y in enumerate(x):
+                yield from paths(y, p + (i,))
+        elif isinstance(x, dict):
+            for k, y in x.items():
+                yield from paths(y, p + (k,))
+
+    def get(x, p):
+        for k in p:
+            x = x[k]
+        return x
+
+    def put(x, p, v):
+        if not p:
+            return v
+        x = json.loads(json.dumps(x))
+        y = x
+        for k in p[:-1]:
+            y = y[k]
+        y[p[-1]] = v
+        return x
+
+    ps = list(paths(doc))
+    for _ in range(3):
+        p = r.choice(ps)
+        cur = get(doc, p)
+        c = r.random()
+        if isinstance(cur, dict) and c < 0.5:
+            nv = dict(cur)
+            if nv and r.random() < 0.5:
+                nv.pop(r.choice(list(nv)))
+            else:
+                nv["zz_extra"] = 1
+        elif isinstance(cur, list) and c < 0.6:
+            nv = list(cur)
+            if nv and r.random() < 0.4:
+                nv.pop()
+            elif nv and r.random() < 0.5:
+                nv.append(nv[0])
+            else:
+                nv.append("zz")
+        else:
+            nv = r.choice([None, True, 7, "zz", 1.5, [], {}, [1, "a"], {"a": 1}, -1, "UTC+25:00"])
+        out.append(put(doc, p, nv))
+    return out
+
+
+def model_part(ctx: vlib.Ctx):
+    """(M): the hand-written model against the implementation on generated cases:
+       (a) schema_f / defs_f  ==  build_json_schema(...).to_dict()   (4 dialect x all_refs combos)
+       (b) jvalid  ==  jsonschema.Draft202012Validator   on real schemas x (valid and mutated) documents
+       (c) enc_ok admits the real serialization; where Coq says the case is in the theorem's domain
+           (ty_ok && env_ok) the real validator accepted it"""
+    from jsonschema import Draft202012Validator
+    from harness.props import c06_model as M
+    import py2gallina
+    br = ctx.theorems("props/C06_schema.vo", ["C06_sound_partial", "C06_required_iff_no_default", "C06_satisfiable",
+                                              "C06_flag_refuted", "C06_intkey_refuted", "C06_shared_defs_refuted",
+                                              "C06_set_collision_refuted", "C06_init_false_refuted"], kernels=["K6"])
+    r = ctx.rng
+    want = ctx.budget(150, 1500)
+    a_cases, b_cases, c_cases, a_descr, b_descr, c_descr = [], [], [], [], [], []
+    patterns = set()
+    tries = 0
+    while len(a_cases) < want and tries < want * 4:
+        tries += 1
+        probe = r.random() < 0.3
+        tbl, root = G.gen_case(r, r.choice([1, 2, 2, 3, 3]), probe)
+        if M.uses_generic(root, tbl):
+            ctx.hist("model_skipped", "generic-dataclass")
+            continue
+        src = G.module_src(tbl, root)
+        try:
+            m = load_module(src)
+        except Exception as e:
+            ctx.hist("model_skipped", "load:" + type(e).__name__)
+            continue
+        try:
+            try:
+                real = {c: build_schema(m.ROOT, *c) for c in COMBOS}
+                H = make_holder(m)
+            except Exception as e:
+                ctx.hist("model_skipped", "unsupported:" + type(e).__name__)
+                continue
+            em = M.Emitter(tbl, m.__dict__)
+            clash = M.has_name_clash(tbl)
+            try:
+                env_t, ty_t = em.env(), em.ty(root)
+                combos = []
+                for (dl, ar), s in real.items():
+                    pre = "#/$defs" if dl == "DRAFT_2020_12" else "#/components/schemas"
+                    dd = {} if clash else defs_of(s)
+                    combos.append(f"({vlib.coq_str(pre)}, {M.cbool(ar)}, {M.schema_term(s)}, {M.defs_term(dd)})")
+                a_cases.append(f"({env_t}, {ty_t}, {M.cl(combos)})")
+                a_descr.append(G.ty_src(root, tbl, [])[:160])
+            except M.OutOfModel as e:
+                ctx.hist("model_skipped", "out-of-model:" + str(e)[:30])
+                continue
+            except M.UnknownKeyword as e:
+                ctx.not_shown("correspondence schema-model-vs-build_json_schema", f"real schema uses keyword outside the model: {e} for {G.ty_src(root, tbl, [])[:200]}")
+                continue
+            for node_s in real.values():
+                for nd in schema_nodes(node_s):
+                    if "pattern" in nd:
+                        patterns.add(nd["pattern"])
+            vals = {c: Draft202012Validator(s) for c, s in real.items()}
+            usafe = M.union_safe(root, tbl, em)
+            if not usafe:
+                ctx.hist("model_skipped", "enc_ok:speculative-union")
+            for _ in range(3):
+                vs = G.gen_value(r, root, tbl, probe)
+                try:
+                    v = eval(G.val_src(vs), m.__dict__)
+                    doc = H(v).to_dict()["r"]
+                    if not finite(doc):
+                        continue
+                    doc = jround(doc)
+                    vt = em.value(root, v)
+                    dt = M.json_term(doc)
+                except M.OutOfModel as e:
+                    ctx.hist("model_skipped", "value-out-of-model:" + str(e)[:30])
+                    continue
+                except Exception as e:
+                    ctx.hist("model_skipped", "serialize:" + type(e).__name__)
+                    continue
+                real_valid = all(not list(val.iter_errors(doc)) for val in vals.values())
+                if usafe:
+                    c_cases.append(f"({env_t}, {ty_t}, {vt}, {dt}, {M.cbool(real_valid)})")
+                    c_descr.append(G.ty_src(root, tbl, [])[:120] + " | " + G.val_src(vs)[:120])
+                combo = r.choice(COMBOS)
+                s = real[combo]
+                try:
+                    st, dft = M.schema_term(s), M.defs_term(defs_of(s))
+                except M.UnknownKeyword:
+                    continue
+                for inst in [doc] + mutants(doc, r):
+                    try:
+                        it = M.json_term(inst)
+                    except M.OutOfModel:
+                        continue
+                    exp = not list(vals[combo].iter_errors(inst))
+                    b_cases.append(f"({dft}, {st}, {it}, {M.cbool(exp)})")
+                    b_descr.append(json.dumps(inst)[:120] + " | " + json.dumps(s)[:200])
+                    ctx.hist("jvalid_cases", "valid" if exp else "invalid")
+        finally:
+            unload_module(m)
+    ctx.trusted.append("harness/props/c06_model.py: emission of env/ty/value/json terms, parsing of the real schema into the model's schema "
+                       "type (keyword order canonicalised; annotations `default`/`description` stripped), typing's Union flattening")
+    ctx.trusted.append("modelled, not verified: stdlib rendering of leaves (isoformat/str/encodebytes, harness side), timezone.tzname (TzName.v), "
+                       "regex semantics of `pattern` (Regex.v matcher on the pattern text found in the real schema)")
+    if not br.ok:
+        # the model does not build: correspondences cannot run (the oracle below still does)
+        return
+    # pattern oracle for the case files: the patterns found in the real schemas, run by the Regex.v matcher
+    pdefs = []
+    arms = "false"
+    for i, p in enumerate(sorted(patterns)):
+        try:
+            pdefs.append(f"Definition pat_{i} : re := {py2gallina.regex_to_coq(p)}.")
+            arms = f"if String.eqb p {vlib.coq_str(p)} then (match re_match pat_{i} x with Some _ => true | None => false end) else {arms}"
+        except Exception as e:
+            ctx.not_shown("correspondence jvalid-vs-jsonschema", f"pattern {p!r} outside the regex subset: {e}")
+    defs = "\n".join(pdefs) + f"\nDefinition pm (p x: string) : bool := {arms}.\n"
+    runs = [
+        ("schema-model-vs-build_json_schema", "c06_a", a_cases, a_descr,
+         "fun c => match c with (E, t, combos) => forallb (fun x => match x with (pre, ar, rs, rdefs) => "
+         "match schema_f E (mkD pre) ar 60 t with Some s => schema_eqb 60 s rs | None => false end && "
+         "match defs_f E (mkD pre) ar 60 (classes E) with Some ds => forallb (fun kd => match assoc ds (fst kd) with "
+         "Some s' => schema_eqb 60 s' (snd kd) | None => false end) rdefs | None => false end end) combos end",
+         "env * ty * list (string * bool * schema * list (string * schema))", ""),
+        ("jvalid-vs-jsonschema", "c06_b", b_cases, b_descr,
+         "fun c => match c with (ds, s, j, e) => Bool.eqb (jvalid pm ds 200 s j) e end",
+         "list (string * schema) * schema * json * bool", defs),
+        ("enc_ok-admits-to_dict+domain", "c06_c", c_cases, c_descr,
+         "fun c => match c with (E, t, v, j, rv) => enc_ok 100 E t v j && (negb (ty_ok 60 E t && env_ok E) || rv) end",
+         "env * ty * value * json * bool", ""),
+    ]
+    for name, fname, cases, descr, okf, ctype, dfs in runs:
+        bad, log = vlib.coq_bad_idx(fname, "JValid Schema PyK_tuple", "From VerifGen Require Import K6.", dfs, cases, okf, ctype,
+                                    shard=100, needs=["theories/Schema.vo"], timeout=900)
+        if bad is None:
+            ctx.correspondence(name, len(cases), -1, log)
+            ctx.not_shown("correspondence " + name, log)
+        else:
+            ctx.correspondence(name, len(cases), len(bad), str([descr[i] for i in bad[:6]]))
+            if bad:
+                ctx.not_shown("correspondence " + name, f"{len(bad)} of {len(cases)} cases differ, e.g. {[descr[i] for i in bad[:4]]}; first case term: {cases[bad[0]][:1800]}")
+        ctx.count(n=len(cases))
+
+
 def fixed_part(ctx):
     """minimal inputs of D11a and of the known findings, always run"""
     for descr, decl, rootsrc, vals in FIXED_CASES:
@@ -652,6 +848,7 @@ def run(ctx: vlib.Ctx):
     ]
     ctx.trusted.append("jsonschema 4.x Draft202012Validator as the standard validator (oracle; jvalid is differentially checked against it)")
     k6_part(ctx)
+    model_part(ctx)
     fixed_part(ctx)
     n = oracle(ctx, ctx.budget(250, 2500), 4)
     ctx.notes.append(f"oracle validations: {n}")
